@@ -140,4 +140,50 @@ def innerOK (ib : IBox) (W H cw ch t : Rat) : Prop :=
 
 instance (ib : IBox) (W H cw ch t : Rat) : Decidable (innerOK ib W H cw ch t) := by unfold innerOK; infer_instance
 
+/-! ### cloud (ratio tables; not piecewise affine in the content because the table is chosen by an aspect ratio) -/
+
+inductive CloudCat where | wide | tall | square
+deriving Repr, BEq, DecidableEq
+
+def cloudWideBoundary : Rat := (1 + cloudWideInnerWidth / cloudWideInnerHeight) / 2
+def cloudTallBoundary : Rat := (1 + cloudTallInnerWidth / cloudTallInnerHeight) / 2
+
+/-- the `aspectRatio > CLOUD_WIDE_ASPECT_BOUNDARY … else if aspectRatio < CLOUD_TALL_ASPECT_BOUNDARY …` cascade -/
+def cloudCat (w h : Rat) : CloudCat :=
+  let ar := w / h
+  if ar > cloudWideBoundary then .wide else if ar < cloudTallBoundary then .tall else .square
+
+def CloudCat.innerW : CloudCat → Rat
+  | .wide => cloudWideInnerWidth | .tall => cloudTallInnerWidth | .square => cloudSquareInnerWidth
+def CloudCat.innerH : CloudCat → Rat
+  | .wide => cloudWideInnerHeight | .tall => cloudTallInnerHeight | .square => cloudSquareInnerHeight
+def CloudCat.innerX : CloudCat → Rat
+  | .wide => cloudWideInnerX | .tall => cloudTallInnerX | .square => cloudSquareInnerX
+def CloudCat.innerY : CloudCat → Rat
+  | .wide => cloudWideInnerY | .tall => cloudTallInnerY | .square => cloudSquareInnerY
+
+/-- `shapeCloud.GetDimensionsToFit` -/
+def cloudFitPre (w h px py : Rat) : Rat × Rat :=
+  let c := cloudCat (w + px) (h + py)
+  ((w + px) / c.innerW, (h + py) / c.innerH)
+
+def cloudFit (w h px py : Rat) : Rat × Rat :=
+  (ceilR (cloudFitPre w h px py).1, ceilR (cloudFitPre w h px py).2)
+
+/-- the aspect ratio d2graph stores in `ContentAspectRatio` (`SizeToContent`): that of `GetInnerBoxForContent` for
+    the *unpadded* content -/
+def cloudHint (w h : Rat) : Rat :=
+  let c := cloudCat w h
+  (w * c.innerW) / (h * c.innerH)
+
+/-- `shapeCloud.GetInnerBox` of a `W × H` cloud; `hint` = `innerBoxAspectRatio` when set and non-zero -/
+def cloudInnerCat (hint : Option Rat) (W H : Rat) : CloudCat :=
+  match hint with
+  | some a => if a = 0 then cloudCat W H else cloudCat a 1
+  | none => cloudCat W H
+
+def cloudInner (hint : Option Rat) (W H : Rat) : IBox :=
+  let c := cloudInnerCat hint W H
+  ⟨ceilR (W * c.innerX), ceilR (H * c.innerY), W * c.innerW, H * c.innerH⟩
+
 end D2V.Shape
